@@ -23,6 +23,7 @@ func Copy(ctx context.Context, ids []ChunkID, src Store, dst WriteStore, n int, 
 	for i := 0; i < n; i++ {
 		g.Go(func() error {
 			for id := range in {
+				verifYield("copy.job")
 				pb.Increment()
 				hasChunk, err := dst.HasChunk(id)
 				if err != nil {
@@ -46,6 +47,7 @@ func Copy(ctx context.Context, ids []ChunkID, src Store, dst WriteStore, n int, 
 	// Feed the workers, the context is cancelled if any goroutine encounters an error
 loop:
 	for _, c := range ids {
+		verifYield("copy.feed")
 		select {
 		case <-ctx.Done():
 			break loop
